@@ -42,6 +42,8 @@ Proof.
   unfold roundtrip_expect.
   destruct (lookup_rule name _) as [[m n h0|? ? ?]|]; try discriminate.
   destruct m as [| | |p]; try discriminate.
+  destruct (plain_segs (pm_text p)) as [segs|]; [|discriminate].
+  destruct (pm_whole p); [|discriminate]. cbn [andb].
   destruct (forallb is_bytes args) eqn:Eb; [|discriminate].
   destruct (spec_url _ args) as [u0|]; [|discriminate].
   set (rq := mk_request host u0 false).
@@ -49,13 +51,13 @@ Proof.
   destruct (find (leaf_strict rq) (leaves (app_rules a))) as [[[anc m'] h']|] eqn:Ef; [|discriminate].
   destruct m' as [| | |p']; try discriminate.
   destruct (all_parses (pm_rx p') (rq_path rq)) as [|caps [|]] eqn:Ep; try discriminate.
-  destruct ((h' =? h0) && caps_eqb caps (map quote_arg args)) eqn:Ec; [|discriminate].
-  intros H. inversion H; subst. apply andb_true_iff in Ec as [Eh Ecaps].
+  destruct (pm_whole p' && (h' =? h0) && caps_eqb caps (map quote_arg args)) eqn:Ec; [|discriminate].
+  intros H. inversion H; subst. apply andb_true_iff in Ec as [Ec Ecaps]. apply andb_true_iff in Ec as [Ew' Eh].
   apply N.eqb_eq in Eh. subst h'. apply caps_eqb_eq in Ecaps. subst caps.
   apply negb_false_iff in Ev. fold (valid_textb (rq_path rq)) in Ev. apply valid_textb_iff in Ev.
   fold rq. rewrite (app_find_spec a rq Ev). unfold spec_route. rewrite Ef.
   change (m_match (MPath p') rq) with (pm_match p' (rq_path rq)).
-  unfold pm_match. rewrite (all_parses_single _ _ _ Ep).
+  unfold pm_match, pm_caps. rewrite Ew', (all_parses_single _ _ _ Ep).
   rewrite map_opt_unq_quote; [reflexivity|].
   apply Forall_forall. intros x Hx. apply is_bytes_iff. rewrite forallb_forall in Eb. apply Eb. exact Hx.
 Qed.
